@@ -13,4 +13,6 @@ INVARIANT IdxParallel
 INVARIANT NothingLost
 INVARIANT ReportIsDecl
 INVARIANT RemovalSound
+INVARIANT QueriesAgreeWithCaches
+INVARIANT RemoveWhereIsExact
 CHECK_DEADLOCK FALSE
